@@ -395,6 +395,7 @@ def run(prog, run):
     rule_descendant_axis(prog, run)
     rule_offset_sign(prog, run)
     rule_reader_shape(prog, run)
+    rule_attr_before_content(prog, run)
 
 
 # --------------------------------------------------------------------------- R3
@@ -959,3 +960,146 @@ def rule_reader_shape(prog, run):
             run.instance(rids[r])
             run.ok(rids[r], 'src/base', 'none among %d parse functions (the control is reported)' % nparsers)
     return nparsers
+
+
+# --------------------------------------------------------------------------- R12: attributes before content
+# writeDefaultNamespace / writeNamespace are not in the list: outside a start tag QXmlStreamWriter defers the declaration to the next element (QXmppHash::toXml relies on it)
+_ATTR_CALLS = ('QXmlStreamWriter::writeAttribute', 'QXmlStreamWriter::writeAttributes', 'QXmpp::Private::writeOptionalXmlAttribute')
+_NS_CALLS = ('QXmlStreamWriter::writeDefaultNamespace', 'QXmlStreamWriter::writeNamespace')
+_CONTENT_CALLS = ('QXmlStreamWriter::writeTextElement', 'QXmlStreamWriter::writeCharacters', 'QXmlStreamWriter::writeCDATA', 'QXmlStreamWriter::writeComment',
+                  'QXmpp::Private::writeXmlTextElement', 'QXmpp::Private::writeOptionalXmlTextElement', 'QXmpp::Private::writeEmptyElement')
+_writer_sum = {}
+
+
+class _Undecided(Exception):
+    pass
+
+
+def _takes_writer(f, n):
+    return any('QXmlStreamWriter' in (f.nodes[f.skip(a)].get('t') or '') for a in n.get('args', []))
+
+
+def _writer_transfer(prog, depth):
+    """state = stack of element states, innermost last: 'O' start tag still open, 'E' empty element open (its parent has content), 'C' has content;
+    ('BAD', nid) + 'BAD' once an attribute is written to an element that has content"""
+    def transfer(g, nid, st):
+        n = g.nodes[nid]
+        if n['k'] != 'call' or (st and st[-1] == 'BAD'):
+            return None
+        cn = g.cname(n)
+        if cn == 'QXmlStreamWriter::writeStartElement':
+            return ((st[:-1] + ('C',) if st else ()) + ('O',))[-8:]
+        if cn == 'QXmlStreamWriter::writeEmptyElement':
+            if st and st[-1] == 'E':
+                return None
+            return ((st[:-1] + ('C',) if st else ()) + ('E',))[-8:]
+        if cn == 'QXmlStreamWriter::writeEndElement':
+            if st and st[-1] == 'E':
+                st = st[:-1]
+            return st[:-1] if st else st
+        if cn in _ATTR_CALLS:
+            if st and st[-1] == 'C':
+                return st + (('BAD', nid), 'BAD')
+            return None
+        if cn in _NS_CALLS:
+            return None
+        if cn in _CONTENT_CALLS or cn.startswith('QXmlStreamWriter::write'):
+            if st and st[-1] == 'E':
+                st = st[:-1]
+            return st[:-1] + ('C',) if st and st[-1] == 'O' else st
+        hs = [h for h in prog.callee_fns(g, n) if h.entry is not None]
+        if not hs or not (_takes_writer(g, n) or hs[0].is_lambda):
+            if not hs and _takes_writer(g, n) and not n.get('op'):
+                # a serialiser defined elsewhere (toXml of a child object): writes elements
+                if st and st[-1] == 'E':
+                    st = st[:-1]
+                return st[:-1] + ('C',) if st and st[-1] == 'O' else st
+            return None
+        if depth >= 4:
+            raise _Undecided()
+        outs = _writer_summary(prog, hs[0], depth + 1)
+        if outs is None:
+            return None
+        # outs: exit stacks of the helper started on ('O',): 'keeps' / 'content' / opens elements
+        top = st[-1] if st else None
+        res = set()
+        for o in outs:
+            if o and o[-1] == 'BAD':
+                continue                                     # reported in the helper itself
+            if o == ('A',):                                   # attributes only
+                if top == 'C':
+                    return st + (('BAD', nid), 'BAD')
+                res.add(st)
+            elif o == ('O',):
+                res.add(st)
+            else:
+                base = st
+                if o and o[0] == 'A':                        # attribute first, then content
+                    if top == 'C':
+                        return st + (('BAD', nid), 'BAD')
+                    o = ('C',) + o[1:]
+                if base and base[-1] == 'E':
+                    base = base[:-1]
+                res.add(((base[:-1] if base else ()) + o)[-8:] if o else base[:-1])
+        if len(res) > 1:
+            # the helper's paths differ (an early return before it writes anything): some path through it leaves content, and that path decides
+            if len(set(len(r) for r in res)) > 1:
+                raise _Undecided()
+            rs = sorted(res)
+            return tuple('C' if any(r[i] == 'C' for r in rs) else rs[0][i] for i in range(len(rs[0])))
+        return res.pop() if res else None
+    return transfer
+
+
+def _writer_summary(prog, h, depth):
+    """exit stacks of helper h when entered with the caller's element open: ('O',) untouched, ('A',) attributes written, ('C',) content written, ('C','O') a child left open ..."""
+    from .. import cfgx
+    if h.id in _writer_sum:
+        return _writer_sum[h.id]
+    _writer_sum[h.id] = None
+    if not any(h.cname(n).startswith('QXmlStreamWriter::') or h.cname(n) in _ATTR_CALLS + _CONTENT_CALLS or _takes_writer(h, n) or
+               any(x.is_lambda for x in prog.callee_fns(h, n)) for _, n in h.calls()):
+        return None
+    inner = _writer_transfer(prog, depth)
+
+    def tr(g, nid, st):
+        n = g.nodes[nid]
+        if n['k'] == 'call' and g.cname(n) in _ATTR_CALLS and st in (('O',), ('A',)):
+            return ('A',)
+        if st == ('A',):
+            r = inner(g, nid, ('O',))
+            if r is None or r == ('O',):
+                return None
+            return ('A',) + r[1:] if r[0] == 'C' else r
+        return inner(g, nid, st)
+    exits, _ = cfgx.explore(h, ('O',), tr, None, max_states=20000)
+    _writer_sum[h.id] = set(exits)
+    return _writer_sum[h.id]
+
+
+def rule_attr_before_content(prog, run):
+    from .. import cfgx
+    rid = run.rule('C01.R12', 'inside one element every attribute is written before any child element or text: QXmlStreamWriter closes the start tag with the first content, an '
+                              'attribute written afterwards ends up as character data and is not read back', floor=60)
+    n_fns = 0
+    for f in prog.fns.values():
+        if f.entry is None or f.raw.get('dependent') or '/src/' not in f.file or f.is_lambda:
+            continue
+        if not any(g.cname(n) in _ATTR_CALLS for g in prog.closure(f) for _, n in g.calls()):
+            continue
+        n_fns += 1
+        run.instance(rid)
+        try:
+            exits, _ = cfgx.explore(f, (), _writer_transfer(prog, 0), None, max_states=20000)
+        except (_Undecided, cfgx.AnalysisBroken):
+            run.ok(rid, f.loc(), 'writer states differ between the exits of a helper or too many states: not decided', nontrivial=False)
+            continue
+        bad = [st for st in exits if st and st[-1] == 'BAD']
+        if bad:
+            nid = [x for x in bad[0] if isinstance(x, tuple) and x[0] == 'BAD'][0][1]
+            run.violation(rid, '%s#attribute-after-content' % f.outer_name(), f.loc(nid),
+                          '%s writes an attribute (%s) after a child element or text of the same element has been written: the start tag is already closed, the attribute '
+                          'goes into the output as text and the reader never sees it' % (f.display()[:50], f.fmt(nid, inline=False)[:60]), cfgx.describe_path(f, exits[bad[0]]))
+        else:
+            run.ok(rid, f.loc(), 'attributes precede content on all paths', nontrivial=False)
+    return n_fns
